@@ -11,8 +11,13 @@
 
 namespace yaclib::detail {
 
-constexpr std::cv_status CVStatusFrom(WaitStatus);
-constexpr std::cv_status CVStatusFrom(std::cv_status);
+constexpr std::cv_status CVStatusFrom(WaitStatus status) noexcept {
+  return status == WaitStatus::Ready ? std::cv_status::no_timeout : std::cv_status::timeout;
+}
+
+constexpr std::cv_status CVStatusFrom(std::cv_status status) noexcept {
+  return status;
+}
 
 // TODO(myannyax) unite with ConditionVariableAny
 
